@@ -102,6 +102,27 @@ LnOK(X, ex, rneg, R, er, p) ==
   IN /\ CmpBF(x, ExpHiS(hiArg.n, hiArg.m, hiArg.e, w)) <= 0        \* else ln x > r + ulp for certain
      /\ CmpBF(ExpLoS(loArg.n, loArg.m, loArg.e, w), x) <= 0        \* else ln x < r - ulp for certain
 
+\* ---- range claims of Ln / Log10 (C12: "reported as overflowed or underflowed only if the exact value really
+\* lies outside the context's range").  Both tests are one-sided: FALSE only when the claim is certainly wrong.
+RECURSIVE IPow10(_)
+IPow10(k) == IF k <= 0 THEN 1 ELSE 10 * IPow10(k - 1)
+\* |log10 x| < |ex + nd| + 1 and |ln x| < 2.4 (|ex + nd| + 1); an overflow needs a magnitude of at least 0.9 * 10^(Emax+1)
+LogOverflowOK(isLn, X, ex, ctx) ==
+  LET a == (IF ex + NumDigits(X) < 0 THEN -(ex + NumDigits(X)) ELSE ex + NumDigits(X)) + 1 IN
+  IF ctx.emax < 0 THEN TRUE
+  ELSE IF ctx.emax >= 6 THEN FALSE                                   \* |ln x| < 2.4 * 200001 < 0.9 * 10^7 for every representable x
+  ELSE (IF isLn THEN a * 24 ELSE a * 10) >= 9 * IPow10(ctx.emax + 1)
+\* a zero / sub-normal / underflowed logarithm needs |ln x| < 10^Emin.  For 1/2 <= x <= 2: |ln x| >= |x - 1| / 2 and
+\* |log10 x| >= |x - 1| / 5; outside that interval |ln x| > 0.69 and |log10 x| > 0.30
+LogTinyOK(isLn, X, ex, ctx) ==
+  IF CmpMag(X, ex, <<5>>, -1) >= 0 /\ CmpMag(X, ex, <<2>>, 0) <= 0
+  THEN LET m == IF ex < 0 THEN ex ELSE 0
+           xa == MulPow10(X, ex - m)
+           one == Pow10(-m)
+           diff == IF Cmp(xa, one) >= 0 THEN Sub(xa, one) ELSE Sub(one, xa)
+       IN CmpMag(diff, m, IF isLn THEN <<2>> ELSE <<5>>, ctx.emin) < 0
+  ELSE ctx.emin >= 0
+
 \* ---- ln 10 to 60 digits, verified by TLC at start-up (not taken from const.go) ----
 Ln10Lo == BF(<<628, 488, 101, 601, 207, 364, 684, 454, 991, 17, 684, 45, 994, 92, 585, 302, 2>>, -48)   \* 2.302585092994045684017991454684364207601101488628 (truncated)
 Ln10Hi == BF(Add(Ln10Lo.m, One), Ln10Lo.e)
